@@ -5,6 +5,7 @@ import (
 	"fmt"
 	"sort"
 	"strings"
+	"sync/atomic"
 	"time"
 
 	"google.golang.org/protobuf/types/known/wrapperspb"
@@ -30,6 +31,37 @@ type latencyCase struct {
 	What string `json:"what"`
 	N    int    `json:"n"`
 	Seed int64  `json:"seed,omitempty"`
+	// BP: the subscriber's backpressure options AS A LIST, in the order they are passed to Pull (an adapter's
+	// default followed by the caller's own choice): the LAST one decides; none = the default (no backpressure)
+	BP []bool `json:"bp,omitempty"`
+}
+
+// bpOptions: one WithBackpressure per element, in order, with options that do not concern backpressure in between
+func bpOptions(bp []bool) []resource.ReadOption {
+	var opts []resource.ReadOption
+	for i, b := range bp {
+		opts = append(opts, resource.WithBackpressure(b))
+		if i%2 == 0 {
+			opts = append(opts, resource.WithUpdatesOnly(false))
+		}
+	}
+	return opts
+}
+
+// effectiveBP: what the option list asks for, written independently of the code: the last element, else false
+func effectiveBP(bp []bool) bool {
+	eff := false
+	for _, b := range bp {
+		eff = b
+	}
+	return eff
+}
+
+func (c latencyCase) bpSig() string {
+	if len(c.BP) > 1 {
+		return "/option-list"
+	}
+	return ""
 }
 
 const blockedAfter = 3 * time.Second // a write that has not returned by then is reported as blocked (expected: µs)
@@ -56,6 +88,8 @@ func (c latencyCase) run(m *lib.Monitor) (maxLatency time.Duration) {
 		c.collectionPause(m, false)
 	case "collection-bp-pause-delete":
 		c.collectionPause(m, true)
+	case "collection-bulk-idle":
+		return c.collectionBulk(m)
 	case "collection-stress":
 		return c.collectionStress(m)
 	case "value-stress":
@@ -73,7 +107,7 @@ func (c latencyCase) valueIdle(m *lib.Monitor) (max time.Duration) {
 	v := resource.NewValue(resource.WithInitialValue(wrapperspb.String("v0")))
 	ctx, cancel := context.WithCancel(context.Background())
 	defer cancel()
-	ch := v.Pull(ctx) // lossy, never read while writing
+	ch := v.Pull(ctx, bpOptions(c.BP)...) // lossy (the last backpressure option, if any, says false), never read while writing
 	last := "v0"
 	for i := 1; i <= c.N; i++ {
 		last = fmt.Sprintf("v%d", i)
@@ -85,11 +119,11 @@ func (c latencyCase) valueIdle(m *lib.Monitor) (max time.Duration) {
 		select {
 		case err := <-done:
 			if err != nil {
-				m.Violate("C09/Value/lossy/set-error", "Set failed with an idle lossy subscriber", c, "nil", err.Error())
+				m.Violate("C09/Value/lossy"+c.bpSig()+"/set-error", "Set failed with an idle lossy subscriber", c, "nil", err.Error())
 				return
 			}
 		case <-time.After(blockedAfter):
-			m.Violate("C09/Value/lossy/writer-blocked", "Set did not return with an idle lossy subscriber attached", c, "prompt return", "blocked > 3s at write "+last)
+			m.Violate("C09/Value/lossy"+c.bpSig()+"/writer-blocked", "Set did not return with an idle lossy subscriber attached", c, "prompt return", "blocked > 3s at write "+last)
 			return
 		}
 		if d := time.Since(t0); d > max {
@@ -97,7 +131,7 @@ func (c latencyCase) valueIdle(m *lib.Monitor) (max time.Duration) {
 		}
 	}
 	if max > promptBound {
-		m.Violate("C09/Value/lossy/writer-waited", "Set waited for an idle lossy subscriber", c, "< "+promptBound.String(), max.String())
+		m.Violate("C09/Value/lossy"+c.bpSig()+"/writer-waited", "Set waited for an idle lossy subscriber", c, "< "+promptBound.String(), max.String())
 	}
 	// now receive: seed first, then eventually the most recent value
 	var got []string
@@ -127,7 +161,7 @@ loop:
 		}
 		prev = k
 	}
-	m.Eval(fmt.Sprintf("value-idle/%d", c.N), len(got) < c.N, nil)
+	m.Eval(fmt.Sprintf("value-idle/%d/%v", c.N, c.BP), len(got) < c.N, nil)
 	return max
 }
 
@@ -136,7 +170,7 @@ func (c latencyCase) collectionIdle(m *lib.Monitor) (max time.Duration) {
 	_, _ = col.Add("a", wrapperspb.String("a0"))
 	ctx, cancel := context.WithCancel(context.Background())
 	defer cancel()
-	ch := col.Pull(ctx) // lossy, not read while writing
+	ch := col.Pull(ctx, bpOptions(c.BP)...) // lossy (the last backpressure option, if any, says false), not read while writing
 	ids := []string{"a", "b", "c"}
 	shadow := map[string]string{"a": "a0"}
 	timed := func(name string, f func() error) bool {
@@ -146,11 +180,11 @@ func (c latencyCase) collectionIdle(m *lib.Monitor) (max time.Duration) {
 		select {
 		case err := <-done:
 			if err != nil {
-				m.Violate("C09/Collection/lossy/write-error", "a write failed with an idle lossy subscriber", c, "nil", name+": "+err.Error())
+				m.Violate("C09/Collection/lossy"+c.bpSig()+"/write-error", "a write failed with an idle lossy subscriber", c, "nil", name+": "+err.Error())
 				return false
 			}
 		case <-time.After(blockedAfter):
-			m.Violate("C09/Collection/lossy/writer-blocked", "a write did not return with an idle lossy subscriber attached", c, "prompt return", "blocked > 3s at "+name)
+			m.Violate("C09/Collection/lossy"+c.bpSig()+"/writer-blocked", "a write did not return with an idle lossy subscriber attached", c, "prompt return", "blocked > 3s at "+name)
 			return false
 		}
 		if d := time.Since(t0); d > max {
@@ -181,7 +215,7 @@ func (c latencyCase) collectionIdle(m *lib.Monitor) (max time.Duration) {
 	}
 	shadow["~"] = "f"
 	if max > promptBound {
-		m.Violate("C09/Collection/lossy/writer-waited", "a write waited for an idle lossy subscriber", c, "< "+promptBound.String(), max.String())
+		m.Violate("C09/Collection/lossy"+c.bpSig()+"/writer-waited", "a write waited for an idle lossy subscriber", c, "< "+promptBound.String(), max.String())
 	}
 	view := map[string]string{}
 	n := 0
@@ -219,15 +253,174 @@ loop:
 	if strings.Join(listed, ",") != strings.Join(want, ",") {
 		m.Violate("C09/Collection/lossy/fold-differs-from-List", "the received changes fold to a different view than List", c, strings.Join(listed, ","), strings.Join(want, ","))
 	}
-	m.Eval(fmt.Sprintf("collection-idle/%d", c.N), n < c.N, nil)
+	m.Eval(fmt.Sprintf("collection-idle/%d/%v", c.N, c.BP), n < c.N, nil)
 	return max
+}
+
+// collectionBulk: "slow readers never block writers" AT SCALE: a lossy Pull that nobody receives from while N
+// DISTINCT ids are added (far more than any small scenario keeps pending at once), a part of them deleted again
+// (ADD then REMOVE cancels in the buffer) and a part updated (merged into the pending ADD); then the reader
+// reads on to a fence.  One writer goroutine; "blocked" = no write completed for 3 s (progress-based, so a
+// loaded machine that is merely slow does not count).
+func (c latencyCase) collectionBulk(m *lib.Monitor) (max time.Duration) {
+	r := lib.NewRand(c.Seed + 7)
+	col := resource.NewCollection()
+	ctx, cancel := context.WithCancel(context.Background())
+	defer cancel()
+	ch := col.Pull(ctx, bpOptions(c.BP)...)
+	shadow := map[string]string{}
+	type op struct {
+		del bool
+		id  string
+		val string
+	}
+	var ops []op
+	for i := 0; i < c.N; i++ {
+		id := fmt.Sprintf("i%04d", i)
+		ops = append(ops, op{id: id, val: id + "a"})
+		shadow[id] = id + "a"
+	}
+	for i, n := 0, c.N/2; i < n; i++ {
+		id := fmt.Sprintf("i%04d", r.Intn(c.N))
+		if _, present := shadow[id]; present && r.Intn(2) == 0 {
+			ops = append(ops, op{del: true, id: id})
+			delete(shadow, id)
+		} else {
+			val := fmt.Sprintf("%sb%d", id, i)
+			ops = append(ops, op{id: id, val: val})
+			shadow[id] = val
+		}
+	}
+	ops = append(ops, op{id: "~", val: "f"})
+	shadow["~"] = "f"
+	var done atomic.Int64
+	werr := make(chan string, 1)
+	var wmax atomic.Int64
+	go func() {
+		for _, o := range ops {
+			t0 := time.Now()
+			var err error
+			if o.del {
+				_, err = col.Delete(o.id)
+			} else {
+				_, err = col.Update(o.id, wrapperspb.String(o.val), resource.WithCreateIfAbsent())
+			}
+			if d := int64(time.Since(t0)); d > wmax.Load() {
+				wmax.Store(d)
+			}
+			if err != nil {
+				werr <- err.Error()
+				return
+			}
+			done.Add(1)
+		}
+		werr <- ""
+	}()
+	prev := int64(-1)
+wait:
+	for {
+		select {
+		case e := <-werr:
+			if e != "" {
+				m.Violate("C09/Collection/lossy/bulk/write-error", "a write failed with an idle lossy subscriber", c, "nil", e)
+				return
+			}
+			break wait
+		case <-time.After(blockedAfter):
+			now := done.Load()
+			if now == prev {
+				o := ops[now]
+				m.Violate("C09/Collection/lossy/bulk/writer-blocked", "a write did not return with an idle lossy subscriber attached while changes to many distinct ids are pending for it", c, "prompt return", fmt.Sprintf("blocked > 3s at write #%d (id %s) of %d", now+1, o.id, len(ops)))
+				return
+			}
+			prev = now
+		}
+	}
+	max = time.Duration(wmax.Load())
+	if max > promptBound {
+		m.Violate("C09/Collection/lossy/bulk/writer-waited", "a write waited for an idle lossy subscriber", c, "< "+promptBound.String(), max.String())
+	}
+	view := map[string]string{}
+	n := 0
+	deadline := time.After(10 * time.Second)
+loop:
+	for {
+		select {
+		case ev := <-ch:
+			n++
+			s := showChange(ev, false)
+			if !foldInto(view, s) {
+				m.Violate("C09/Collection/lossy/bulk/old-value-chain", "a delivered change is not well formed at the subscriber's view", c, "well-formed", s)
+			}
+			if ev.Id == "~" {
+				break loop
+			}
+		case <-deadline:
+			m.Violate("C09/Collection/lossy/bulk/latest-not-received", "the subscriber did not receive the last change within 10s of reading on", c, "fence event", fmt.Sprintf("%d changes received", n))
+			break loop
+		}
+	}
+	if a, b := showView(view), showView(shadow); a != b {
+		m.Violate("C09/Collection/lossy/bulk/fold-differs", "the received changes fold to a different view than the collection holds", c, fmt.Sprintf("%d items", len(shadow)), fmt.Sprintf("%d items: %s", len(view), diffViews(view, shadow)))
+	}
+	listed := map[string]int{}
+	for _, msg := range col.List() {
+		listed[tokOf(msg)]++
+	}
+	for _, v := range view {
+		listed[v]--
+	}
+	for v, k := range listed {
+		if k != 0 {
+			m.Violate("C09/Collection/lossy/bulk/fold-differs-from-List", "the received changes fold to a different view than List", c, "the same values", fmt.Sprintf("%s: %+d in List", v, k))
+			break
+		}
+	}
+	m.Eval(fmt.Sprintf("collection-bulk-idle/%d/%d", c.N, c.Seed), n < len(ops), nil)
+	return max
+}
+
+// diffViews: the first few ids on which two views differ
+func diffViews(a, b map[string]string) string {
+	var ids []string
+	for id, v := range a {
+		if w, ok := b[id]; !ok || w != v {
+			ids = append(ids, id)
+		}
+	}
+	for id := range b {
+		if _, ok := a[id]; !ok {
+			ids = append(ids, id)
+		}
+	}
+	sort.Strings(ids)
+	if len(ids) > 6 {
+		ids = ids[:6]
+	}
+	var out []string
+	for _, id := range ids {
+		x, ok := a[id]
+		if !ok {
+			x = "-"
+		}
+		y, ok := b[id]
+		if !ok {
+			y = "-"
+		}
+		out = append(out, fmt.Sprintf("%s: received %s, held %s", id, x, y))
+	}
+	return strings.Join(out, "; ")
 }
 
 func (c latencyCase) valueBP(m *lib.Monitor) (max time.Duration) {
 	v := resource.NewValue(resource.WithInitialValue(wrapperspb.String("v0")))
 	ctx, cancel := context.WithCancel(context.Background())
 	defer cancel()
-	ch := v.Pull(ctx, resource.WithBackpressure(true))
+	bp := c.BP
+	if len(bp) == 0 {
+		bp = []bool{true}
+	}
+	ch := v.Pull(ctx, bpOptions(bp)...) // the last backpressure option says true
 	// 1. the writer waits: nobody receives, so Set must not return (within 60ms)
 	done := make(chan error, 1)
 	go func() { _, err := v.Set(wrapperspb.String("v1")); done <- err }()
@@ -291,7 +484,7 @@ func (c latencyCase) valueBP(m *lib.Monitor) (max time.Duration) {
 	if strings.Join(got, " ") != strings.Join(want, " ") {
 		m.Violate("C09/Value/backpressure/dropped-or-reordered", "with backpressure and a receiving subscriber every value must arrive, in order", c, strings.Join(want, " "), strings.Join(got, " "))
 	}
-	m.Eval(fmt.Sprintf("value-bp/%d", c.N), true, nil)
+	m.Eval(fmt.Sprintf("value-bp/%d/%v", c.N, c.BP), true, nil)
 	return max
 }
 
@@ -512,38 +705,60 @@ loop:
 // in each of two immediate re-runs of the same scenario (same seed).  Genuine defects are deterministic
 // here; a stall of a loaded machine is not.
 func runConfirmed(c latencyCase, mon *lib.Monitor) time.Duration {
+	r := confirmRun(c)
+	r.report(mon)
+	return r.d
+}
+
+type confirmed struct {
+	c             latencyCase
+	d             time.Duration
+	first         *lib.Monitor
+	confirmed     map[string]*lib.Violation
+	notReproduced []string
+}
+
+// confirmRun touches no shared monitor: several scenarios can be confirmed side by side
+func confirmRun(c latencyCase) confirmed {
 	first := lib.NewMonitor("private", "")
-	d := c.run(first)
-	confirmed := map[string]*lib.Violation{}
+	out := confirmed{c: c, first: first, confirmed: map[string]*lib.Violation{}}
+	out.d = c.run(first)
 	for _, v := range first.Violations {
-		confirmed[v.Signature] = v
+		out.confirmed[v.Signature] = v
 	}
-	for attempt := 0; attempt < 2 && len(confirmed) > 0; attempt++ {
+	for attempt := 0; attempt < 2 && len(out.confirmed) > 0; attempt++ {
 		again := lib.NewMonitor("private", "")
 		c.run(again)
 		seen := map[string]bool{}
 		for _, v := range again.Violations {
 			seen[v.Signature] = true
 		}
-		for sig := range confirmed {
+		for sig := range out.confirmed {
 			if !seen[sig] {
-				delete(confirmed, sig)
-				mon.Count("not reproduced on re-run: " + sig)
+				delete(out.confirmed, sig)
+				out.notReproduced = append(out.notReproduced, sig)
 			}
 		}
 	}
-	mon.Eval(fmt.Sprintf("%s/%d/%d", c.What, c.N, c.Seed), true, nil)
-	for _, v := range first.Violations {
-		if _, ok := confirmed[v.Signature]; ok {
+	return out
+}
+
+func (r confirmed) report(mon *lib.Monitor) {
+	c := r.c
+	for _, sig := range r.notReproduced {
+		mon.Count("not reproduced on re-run: " + sig)
+	}
+	mon.Eval(fmt.Sprintf("%s/%d/%d/%v", c.What, c.N, c.Seed, c.BP), true, nil)
+	for _, v := range r.first.Violations {
+		if _, ok := r.confirmed[v.Signature]; ok {
 			mon.Violate(v.Signature, v.What+" (reproduced in 3 consecutive runs)", v.Input, v.Expected, v.Observed)
 		}
 	}
-	for k, n := range first.Distribution {
+	for k, n := range r.first.Distribution {
 		for i := 0; i < n; i++ {
 			mon.Count(k)
 		}
 	}
-	return d
 }
 
 func newLatencyMonitor(res *lib.Result) *lib.Monitor {
@@ -568,6 +783,38 @@ func runLatencyCases(f lib.Flags, mon *lib.Monitor) map[string]int64 {
 	if f.Thorough() {
 		cases = append(cases, latencyCase{Kind: "latency", What: "value-bp-timeout", N: 1})
 	}
+	// next to them, each on its own goroutine (they mostly wait when something is wrong): the subscriber's
+	// backpressure setting given as an option LIST (the last one decides), and the idle reader AT SCALE
+	T, F := true, false
+	side := []latencyCase{
+		{Kind: "latency", What: "value-idle", N: 40, BP: []bool{F}},
+		{Kind: "latency", What: "value-idle", N: 40, BP: []bool{T, F}},
+		{Kind: "latency", What: "value-idle", N: 40, BP: []bool{F, T, F}},
+		{Kind: "latency", What: "collection-idle", N: 40, BP: []bool{T, F}},
+		{Kind: "latency", What: "collection-idle", N: 40, BP: []bool{T, T, F, F}},
+		{Kind: "latency", What: "value-bp", N: 30, BP: []bool{F, T}},
+		{Kind: "latency", What: "value-bp", N: 30, BP: []bool{T, F, T}},
+		{Kind: "latency", What: "collection-bulk-idle", N: f.N(2500, 12000), Seed: f.Seed},
+		{Kind: "latency", What: "collection-bulk-idle", N: f.N(1500, 5000), Seed: f.Seed + 1, BP: []bool{T, F}},
+	}
+	sideDone := make([]chan confirmed, len(side))
+	for i, c := range side {
+		sideDone[i] = make(chan confirmed, 1)
+		go func(i int, c latencyCase) { sideDone[i] <- confirmRun(c) }(i, c)
+	}
+	defer func() {
+		for i, c := range side {
+			r := <-sideDone[i]
+			r.report(mon)
+			key := "max_write_latency_us/" + c.What
+			if len(c.BP) > 1 {
+				key += "/option-list"
+			}
+			if prev, ok := extra[key]; !ok || r.d.Microseconds() > prev {
+				extra[key] = r.d.Microseconds()
+			}
+		}
+	}()
 	start := time.Now()
 	for _, c := range cases {
 		if time.Since(start) > 20*time.Second && strings.HasSuffix(c.What, "-stress") && !f.Thorough() {
